@@ -51,13 +51,15 @@ def fiberOf : List c19_Pt → Option (List Int)
 /-! ### TwoFingerIntersector.addTraces
 
 The lists are the not yet consumed parts of the two traces, the heads are `point0` /
-`point1`, `[]` is `None`.  The Python variable `fiber` always equals `point0[:-1]` at the
-top of the loop (it is assigned from `point0` before the loop and at the end of every
-iteration), so it is a `let` here. -/
+`point1`, `[]` is `None`.  At the top of every iteration a finger that is still in an
+earlier fiber (smaller outer point) is moved on without a comparison; then `fiber` is
+`point0[:-1]`. -/
 
 def tfLoop : List c19_Pt → List c19_Pt → Nat
   | p0 :: r0, p1 :: r1 =>
     if p0.isEmpty || p1.isEmpty then 0            -- `while point0 and point1`
+    else if c19_lexLt p0.dropLast p1.dropLast then tfLoop r0 (p1 :: r1)     -- `continue`
+    else if c19_lexLt p1.dropLast p0.dropLast then tfLoop (p0 :: r0) r1     -- `continue`
     else
       let fiber := p0.dropLast
       if p0 = p1 then 1 + tfLoop r0 r1
@@ -75,6 +77,8 @@ decreasing_by all_goals (simp only [List.length_cons]; omega)
 def saLoop : Option Nat → List c19_Pt → List c19_Pt → Nat
   | curr, p0 :: r0, p1 :: r1 =>
     if p0.isEmpty || p1.isEmpty then 0
+    else if c19_lexLt p0.dropLast p1.dropLast then saLoop none r0 (p1 :: r1)   -- `curr = None; continue`
+    else if c19_lexLt p1.dropLast p0.dropLast then saLoop none (p0 :: r0) r1
     else
       let fiber := p0.dropLast
       if p0 = p1 then
@@ -103,18 +107,17 @@ structure IState where
   count : Int := 0
   deriving DecidableEq, Repr
 
-/-- first lines of both loops: the points, the `None` test and the assertion that both
-    traces start in the same fiber.  `none` = the call raises. -/
+/-- first lines of both loops: the points and the `None` test (`return`).  `none` = a
+    header row in data position (outside the model). -/
 def startPts (n : Nat) (t0 t1 : List TRow) : Option (Option (List c19_Pt × List c19_Pt)) := do
   let q0 ← t0.mapM (TRow.point n)
   let q1 ← t1.mapM (TRow.point n)
   match q0, q1 with
-  | p0 :: _, p1 :: _ =>
-    if p0.dropLast = p1.dropLast then pure (some (q0, q1)) else none    -- `assert …`
+  | _ :: _, _ :: _ => pure (some (q0, q1))
   | _, _ => pure none                                                    -- `return`
 
 /-- `TwoFingerIntersector.addTraces(trace0, trace1)`; `none` = an exception
-    (IndexError on an empty first trace, AssertionError). -/
+    (IndexError on an empty first trace). -/
 def tfAdd (s : IState) (t0 t1 : List TRow) : Option IState := do
   let (s, t0, t1) ←
     if !s.started then
@@ -252,7 +255,7 @@ def saSpecAll (fs : List FiberIn) : Nat := (fs.map (fun f => saSpec f.a f.b)).su
 /-- leader-follower cost: the elements the leader presented -/
 def lfSpecAll (fs : List FiberIn) : Nat := (fs.map (fun f => f.a.length)).sum
 
-/-! ### The fibers after which a trace may continue in the same `addTraces` call
+/-! ### Fibers that end with a lone trailing row (reported as branch tags by the driver)
 
 `cleanEnd a b`: the merge of `a` and `b` does not end with a match that exhausts exactly
 one of the operands (then the trailing use of the other operand directly follows a row
@@ -270,22 +273,17 @@ decreasing_by all_goals (simp only [List.length_cons]; omega)
 
 def clean (a b : List Int) : Bool := (a.isEmpty == b.isEmpty) && cleanEnd a b
 
-/-- every fiber of a group except the last is clean -/
-def groupClean : List FiberIn → Bool
-  | [] => true
-  | [_] => true
-  | f :: g => clean f.a f.b && groupClean g
-
 /-- executable form of "strictly ascending" for presented coordinate lists -/
 def c19_ascB : List Int → Bool
   | [] => true
   | [_] => true
   | x :: y :: r => decide (x < y) && c19_ascB (y :: r)
 
-/-- executable pairwise distinctness of the outer-loop points of a group -/
-def distinctPre : List FiberIn → Bool
+/-- the outer-loop points of the fibers of a group ascend (what a loop nest produces:
+    every loop walks its fiber in coordinate order) -/
+def ascPre : List FiberIn → Bool
   | [] => true
-  | f :: g => g.all (fun h => decide (f.pre ≠ h.pre)) && distinctPre g
+  | f :: g => g.all (fun h => c19_lexLt f.pre h.pre) && ascPre g
 
 /-- row shape: `n` loop ranks -/
 def FiberIn.shapeOk (n : Nat) (f : FiberIn) : Bool :=
